@@ -124,7 +124,8 @@ PROPS = {
         "explanation": "random scripts of 1..12 records of all kinds, mostly passing, first failing record and halt at random positions, failing connections, local variables set while substitution is off",
     },
     "C12": {
-        "runs": [{"profile": "c12", "n_quick": 6000, "n_thorough": 120000}],
+        "runs": [{"profile": "c12", "n_quick": 6000, "n_thorough": 120000},
+                 {"profile": "climulti", "kind": "cli", "n_quick": 25, "n_thorough": 400, "nontrivial": "any"}],
         "observable": "MakeConnection invocations in order, session id per call (the mock answers every query with [session id, earlier calls on that session]), per-session order, multiset of sessions shut down",
         "explanation": "random scripts over connection names {default,a,A,b,c1} incl. repeated connection lines, interleaved with comments / system / guards / failing records, failing connection attempts",
     },
@@ -143,7 +144,8 @@ PROPS = {
         "explanation": "exhaustive: all permutations of 11 base result sets of <= 5 rows x 4 query-level x 4 file-level sort modes x 2 result modes (5-row sets thinned in the quick tier); random: row and value permutations of larger sets",
     },
     "C11": {
-        "runs": [{"profile": "c11", "n_quick": 3000, "n_thorough": 3000, "exhaustive": True, "oracle": "c11"}],
+        "runs": [{"profile": "c11", "n_quick": 3000, "n_thorough": 3000, "exhaustive": True, "oracle": "c11"},
+                 {"profile": "climulti", "kind": "cli", "n_quick": 25, "n_thorough": 400, "nontrivial": "any"}],
         "observable": "executed? (call log), verdict",
         "exhaustive": True,
         "explanation": "exhaustive: all guard lists of length <= 2 (quick) / <= 3 (thorough) over {onlyif,skipif} x 4 labels x all 16 label subsets x 3 record kinds x engine name set/empty",
